@@ -62,4 +62,11 @@ def changeTypeGuard (S : Schema) (doc : Node) (pos : Nat) (ty : TypeId) (ms : Ma
     | none => false
   | none => true
 
+/-- what the Fitter's `place_nodes` makes of a node put in at `p`: `node.mark(parent_type.allowed_marks(node.marks))` —
+    the marks the parent of `p` does not allow are dropped -/
+def strippedAt (S : Schema) (doc : Node) (p : Nat) (n : Node) : Node :=
+  match doc.resolve p with
+  | some rp => n.withMarks ((S.nodeType (S.tyOf rp.parent)).allowedMarks n.marks)
+  | none => n
+
 end PM
